@@ -97,14 +97,16 @@ static void run_case(vf::Ctx& ctx, const Fac& fac, int input_kind)
         if (!(again == base)) ctx.violation(key("rerun-without-fault-differs"), info().kv("differs_in", base.diff(again)).str());
     }
     vfh::sink().reset_counts();
+    // (counter keys used inside the measured region exist before it, so that the harness allocates nothing there)
+    ctx.count("faults_thrown/derived-from-std::exception", 0); ctx.count("faults_thrown/plain-struct", 0); ctx.count("faults_thrown/enum-value", 0);
 #ifdef VF_HAVE_ASAN
     const size_t bytes0 = __sanitizer_get_current_allocated_bytes();
 #endif
     long faults = 0, from_init = 0, from_compute = 0;
     // one faulted attempt: arm operator `which` at application k; returns false when the oracle failed
-    auto faulted = [&](int which, long k, long token) -> bool {
+    auto faulted = [&](int which, long k, long token, int kind = 0) -> bool {
         for (auto* c : ctls) { c->reset(); c->disarm(); }
-        ctls[which]->arm(k, token);
+        ctls[which]->arm(k, token, kind);
         int where = 0;  // 1 init, 2 compute
         bool got = false, wrong = false;
         std::string other;
@@ -114,16 +116,19 @@ static void run_case(vf::Ctx& ctx, const Fac& fac, int input_kind)
             where = 2; es->compute(sel, maxit, tol, srt);
             where = 3;
         }
-        catch (const vw::InjectedFault& f) { got = true; wrong = (f.token != token); }
+        catch (const vw::InjectedFault& f) { if (kind == 0) { got = true; wrong = (f.token != token); } else other = "InjectedFault"; }
+        catch (const vw::PlainFault& f) { if (kind == 1) { got = true; wrong = (f.token != token); } else other = "PlainFault"; }
+        catch (vw::FaultCode f) { if (kind == 2) { got = true; wrong = ((long) f != token); } else other = "FaultCode"; }
         catch (const std::exception& e) { other = typeid(e).name(); }
         catch (...) { other = "unknown"; }
         ctls[which]->disarm();
         faults++;
+        ctx.count(kind == 0 ? "faults_thrown/derived-from-std::exception" : (kind == 1 ? "faults_thrown/plain-struct" : "faults_thrown/enum-value"));
         if (where == 1) from_init++; else if (where == 2) from_compute++;
         if (!got || wrong)
         {
             ctx.violation(key(where == 3 ? "fault-swallowed" : (wrong ? "fault-token-changed" : "fault-replaced-by-other-exception")),
-                          info().kv("operator", which == 0 ? "A" : "B").kv("fault_at", k).kv("of", N[which]).kv("other", other).str());
+                          info().kv("operator", which == 0 ? "A" : "B").kv("fault_at", k).kv("of", N[which]).kv("other", other).kv("thrown", kind == 0 ? "std::exception-derived" : (kind == 1 ? "plain struct" : "enum value")).str());
             return false;
         }
         if (which == 0 && ((k <= 2) != (where == 1)))
@@ -133,18 +138,27 @@ static void run_case(vf::Ctx& ctx, const Fac& fac, int input_kind)
         }
         return true;
     };
-    auto recovered = [&](const char* what, int which, long k1, long k2) {
+    auto recovered = [&](const char* what, int which, long k1, long k2, int kind = 0) {
         Snapshot s;
         const std::string o = clean_run(s);
         if (o != "ok" || !(s == base))
-            ctx.violation(key(what), info().kv("operator", which == 0 ? "A" : "B").kv("fault_at", k1).kv("second_fault_at", k2).kv("outcome", o).kv("differs_in", o == "ok" ? base.diff(s) : "outcome").str());
+            ctx.violation(key(what), info().kv("operator", which == 0 ? "A" : "B").kv("fault_at", k1).kv("second_fault_at", k2).kv("outcome", o).kv("differs_in", o == "ok" ? base.diff(s) : "outcome")
+                                         .kv("thrown", kind == 0 ? "std::exception-derived" : (kind == 1 ? "plain struct" : "enum value")).str());
     };
     // every single fault index, in each operator
     for (int which = 0; which < (int) ctls.size(); which++)
         for (long k = 1; k <= N[which]; k++)
         {
-            if (!faulted(which, k, 1000 * which + k)) continue;
-            recovered("recovery-after-fault-differs", which, k, -1);
+            // the thrown object: one derived from std::exception and, for every k as well, one that is not (plain struct / enum value alternating; thorough: all three)
+            for (int kind = 0; kind < 3; kind++)
+            {
+                if (!ctx.thorough && kind != 0 && kind != 1 + (int) (k % 2)) continue;
+                // long runs: every k with the std::exception-derived object; the other kinds at the first 20 and last 40 applications (start-up, probing
+                // and back-transformation stages) and at about 240 indices spread over the rest
+                if (kind != 0 && N[which] > 300 && !(k <= 20 || k > N[which] - 40 || k % ((N[which] + 239) / 240) == 0)) continue;
+                if (!faulted(which, k, 1000 * which + k, kind)) continue;
+                recovered("recovery-after-fault-differs", which, k, -1, kind);
+            }
         }
     // pairs of faults (all pairs when N <= 40, a sample otherwise)
     long pairs = 0;
@@ -156,8 +170,8 @@ static void run_case(vf::Ctx& ctx, const Fac& fac, int input_kind)
             long k1, k2;
             if (n0 * n0 <= want) { if (t >= n0 * n0) break; k1 = 1 + t / n0; k2 = 1 + t % n0; }
             else { k1 = r.range(1, n0); k2 = r.range(1, n0); }
-            if (!faulted(0, k1, 7)) continue;
-            if (!faulted(0, k2, 8)) continue;
+            if (!faulted(0, k1, 7, (int) (t % 3))) continue;
+            if (!faulted(0, k2, 8, (int) ((t / 3) % 3))) continue;
             recovered("recovery-after-two-faults-differs", 0, k1, k2);
             pairs++;
         }
